@@ -23,6 +23,7 @@ import z3
 
 from gsv import colsym, common, gt, symdag
 from gsv import rulesym as R
+from gsv.colsym import SymArray
 
 FACT = {"y": fractions.Fraction(1), "m": fractions.Fraction(12), "w": fractions.Fraction(36525, 700), "d": fractions.Fraction(36525, 100)}
 PAT = re.compile(r"(?P<base>.*_)(?P<u>[ymwd])(?P<agg>_(hh|wthh|fg|bg|eg|ehe|sn))?$")
@@ -60,6 +61,26 @@ def converters(ck):
         r, m = ck.oblige(f"factor {name}", [zabs(t - want_t) > zfr(REL) * zabs(want_t)], 30,
                          sample={"converter": name, "claim": f"{name}(x) == x * {ratio} (rel. 2^-50)"})
         ck.nontrivial.add(("factor", name))
+        # the converter must not modify the column it is given (numpy in-place arithmetic on the argument would
+        # overwrite the source column of the derived node)
+        col = SymArray([R.Sym(z3.Real("c0"), float), R.Sym(z3.Real("c1"), float)], float)
+        try:
+            _, ctx_a = R.run(f, kwargs={"value": col})
+            ck.obligations += 1
+            ck.nontrivial.add(("alias", name))
+            muts = getattr(ctx_a, "arg_mutations", None) or []
+            if not muts:
+                ck.discharged += 1
+            else:
+                a = numpy.array([1.5, 2.5])
+                f(a)
+                if list(a) != [1.5, 2.5]:
+                    ck.violation(["converter-mutates-argument", name], f"{name} modifies the array it is given (in-place arithmetic on {muts[0][1]!r}): [1.5, 2.5] -> {a.tolist()}; "
+                                 "the source column of every node derived with it is overwritten", {"kind": "alias", "name": name})
+                else:
+                    common.spurious("C13", f"{name}: recorded argument mutation does not reproduce")
+        except R.Unsupported as e:
+            ck.add_inconclusive(f"no aliasing {name}: {e}")
         if r == "sat":
             xv = float(R.z3_to_fraction(m.eval(x.t, model_completion=True))) or 1.0
             real = float(f(xv))
@@ -504,6 +525,12 @@ def replay(path):
         want = d["x"] * float(FACT[a] / FACT[b])
         print(real, want)
         return 1 if abs(real - want) > 1e-12 * abs(want) else 0
+    if d["kind"] == "alias":
+        import _gettsim.time_conversion as TC
+        a = numpy.array([1.5, 2.5])
+        getattr(TC, d["name"])(a)
+        print(a.tolist())
+        return 1 if list(a) != [1.5, 2.5] else 0
     if d["kind"] == "pair":
         rep = _replay_pair(datetime.date.fromisoformat(d["date"]), d["a"], d["b"], d["row"], fractions.Fraction(*d["fac"]))
         print(rep)
